@@ -392,6 +392,73 @@ func TestP1Decode(t *testing.T) {
 	})
 }
 
+// inflate adds filler glyphs until the encrypted portion is about wantEexec
+// bytes, and (bigClear) a long Notice so that the clear-text portion passes
+// 65536 bytes as well.
+func inflate(f *type1.Font, wantEexec int, bigClear bool, salt int) {
+	n := wantEexec/60 + 1
+	for i := 0; i < n; i++ {
+		g := &type1.Glyph{WidthX: float64(400 + (i+salt)%300)}
+		x, y := float64((i*7+salt)%500), float64((i*13)%700)
+		g.MoveTo(x, y)
+		for k := 1; k <= 6; k++ {
+			g.LineTo(x+float64(150*k), y+float64((k%3)*211-100))
+			g.LineTo(x-float64(130*k), y+float64(k*173))
+		}
+		g.ClosePath()
+		f.Glyphs[fmt.Sprintf("filler%06d", i)] = g
+	}
+	if bigClear {
+		f.FontInfo.Notice = strings.Repeat("Large clear-text portion. ", 2600) // 67,600 bytes
+	}
+}
+
+func TestP2Large(t *testing.T) {
+	rec := ev.New("C08", "large")
+	defer rec.Finish(t)
+	rec.Rule("large fonts: a generated font inflated with filler glyphs so that the encrypted portion is 60,000-70,000, about 131,072 or about 200,000 bytes (segment and Length values that need the third length byte), half of them with a 67,600-byte Notice so that the clear-text portion passes 65,536 bytes too; thorough tier, shard 0: one font whose encrypted portion exceeds 2^24 bytes (fourth length byte). Same oracle as the decode part, x 5 forms. Every case is non-trivial; distinct by font content and form.")
+	var opts t1gen.FontOpts
+	opts.NoOperatorNames, opts.NoNewlineVersion, opts.NoStdEncHoles, opts.NoOddZones = true, true, true, true
+	opts.MaxGlyphs = 4
+	run := func(f *type1.Font, label string) (string, *c08case) {
+		for form := range formNames {
+			c := &c08case{Font: f, Form: form}
+			rec.Eval(1)
+			rec.Class(label)
+			rec.NonTrivial(fmt.Sprint(label, len(f.Glyphs), f.FontName, formNames[form]))
+			if msg := ev.Safe(func() string { return check(c) }); msg != "" {
+				return msg, c
+			}
+		}
+		return "", nil
+	}
+	ev.SetupRapid(12, 96)
+	rapid.Check(t, func(t *rapid.T) {
+		f, _ := t1gen.GenFont(t, opts)
+		want := rapid.OneOf(rapid.IntRange(60000, 70000), rapid.IntRange(130000, 133000), rapid.Just(200000)).Draw(t, "eexecsize")
+		bigClear := rapid.Bool().Draw(t, "bigclear")
+		inflate(f, want, bigClear, rapid.IntRange(0, 999).Draw(t, "salt"))
+		label := fmt.Sprintf("eexec~%dk", want/1000)
+		if bigClear {
+			label += "+clear>64k"
+		}
+		if rec.WantSample() {
+			rec.Sample(map[string]any{"glyphs": len(f.Glyphs), "target_eexec_bytes": want, "big_clear_text": bigClear})
+		}
+		if msg, c := run(f, label); msg != "" {
+			rec.Fail(t, msg, c)
+		}
+	})
+	if shard, _ := ev.Shard(); ev.Thorough() && shard == 0 {
+		f := baseFont()
+		inflate(f, 17_000_000, false, 0)
+		if msg, c := run(f, "eexec>2^24"); msg != "" {
+			// the replay file holds the parameters, not the 17 MB font
+			rec.Violation(false, msg, map[string]any{"large_eexec": 17000000, "form": c.Form})
+		}
+	}
+}
+
 func TestReplay(t *testing.T) {
 	rc, err := ev.LoadReplay()
 	if err != nil {
@@ -400,8 +467,15 @@ func TestReplay(t *testing.T) {
 	if rc == nil {
 		t.Skip("no VERIF_REPLAY")
 	}
+	var big struct {
+		LargeEexec int `json:"large_eexec"`
+		Form       int `json:"form"`
+	}
 	var c c08case
-	if err := json.Unmarshal(rc.Case, &c); err != nil {
+	if json.Unmarshal(rc.Case, &big) == nil && big.LargeEexec > 0 {
+		c.Font, c.Form = baseFont(), big.Form
+		inflate(c.Font, big.LargeEexec, false, 0)
+	} else if err := json.Unmarshal(rc.Case, &c); err != nil {
 		t.Fatal(err)
 	}
 	if msg := ev.Safe(func() string { return check(&c) }); msg != "" {
